@@ -119,6 +119,7 @@ var srcTargets = []srcTarget{
 	{Group: "Decode", Name: "DecodeAuthorizationRequestClaims", Only: "V2"},
 	{Group: "Decode", Name: "DecodeAuthorizationResponseClaims", Only: "V2"},
 	{Group: "Decode", Recv: "ClaimsData", Name: "verify", Only: "V2"},
+	{Group: "Decode", Name: "DecodeGeneric", Only: "V2"},
 	{Group: "DecodeV1", Recv: "Header", Name: "Valid", Only: "V1"},
 	{Group: "DecodeV1", Name: "parseHeaders", Only: "V1"},
 	{Group: "DecodeV1", Name: "parseClaims", Only: "V1"},
@@ -337,7 +338,7 @@ func isAbstractType(ty types.Type) bool {
 func typeShortName(ty types.Type) string {
 	s := types.TypeString(derefType(ty), func(*types.Package) string { return "" })
 	s = strings.TrimPrefix(s, "*")
-	return strings.NewReplacer(".", "_", "{", "", "}", "", " ", "").Replace(s)
+	return strings.NewReplacer(".", "_", "{", "", "}", "", " ", "", ";", "_").Replace(s)
 }
 
 func coqString(n ast.Node, t *tr, s string) string {
@@ -523,6 +524,11 @@ func (t *tr) expr(e ast.Expr) string {
 		case token.AND:
 			if id, ok := x.X.(*ast.Ident); ok && t.names[t.info.Uses[id]] != "" && isAbstractType(t.info.Uses[id].Type()) {
 				return t.names[t.info.Uses[id]] // the address of an opaque local is that value
+			}
+			if sel, ok := x.X.(*ast.SelectorExpr); ok {
+				if _, isAbs := t.absPath(sel); isAbs && isAbstractType(t.info.TypeOf(sel)) {
+					return t.expr(sel) // the address of a struct-valued field of an abstract value: that part of it
+				}
 			}
 			if lit, ok := x.X.(*ast.CompositeLit); ok && implResults && isResultsType(t.info.TypeOf(lit)) {
 				// &ValidationResults{Issues: l}: the results are their list
@@ -1414,6 +1420,13 @@ func (t *tr) assigned(n ast.Node) []*types.Var {
 		switch s := m.(type) {
 		case *ast.AssignStmt:
 			for _, l := range s.Lhs {
+				if root, _, _, ok := t.freshStore(l); ok {
+					if v, isVar := root.(*types.Var); isVar && !seen[v] {
+						seen[v] = true
+						out = append(out, v)
+					}
+					continue
+				}
 				if _, isSel := l.(*ast.SelectorExpr); isSel && t.isEffectTarget(l) {
 					addLog()
 					continue
@@ -1649,6 +1662,41 @@ func (t *tr) block0(stmts []ast.Stmt, c sctx, ind string) string {
 		}
 		return out + t.block(rest, c, ind)
 	case *ast.AssignStmt:
+		// x := T{} for an opaque struct: x is a fresh value of its own too (stores into it rebind it)
+		if len(x.Lhs) == 1 && len(x.Rhs) == 1 && x.Tok == token.DEFINE {
+			if lit, ok := x.Rhs[0].(*ast.CompositeLit); ok && isAbstractType(t.info.TypeOf(lit)) && len(lit.Elts) == 0 {
+				if lid, ok := x.Lhs[0].(*ast.Ident); ok && lid.Name != "_" && t.info.Defs[lid] != nil {
+					if t.freshLocal == nil {
+						t.freshLocal = map[types.Object]bool{}
+					}
+					t.freshLocal[t.info.Defs[lid]] = true
+				}
+			}
+		}
+		// x.A.B = e, x.A.B[k] = e for a fresh opaque local x: x becomes an unknown function of the old x and what is stored
+		if len(x.Lhs) == 1 && len(x.Rhs) == 1 && x.Tok == token.ASSIGN {
+			if root, path, key, ok := t.freshStore(x.Lhs[0]); ok {
+				local := t.names[root]
+				tys := []string{"go_val"}
+				as := []string{local}
+				name := "obs_" + typeShortName(root.Type()) + "_set_" + path
+				if key != nil {
+					name += "_at"
+					tys = append(tys, t.coqType(key, t.info.TypeOf(key)))
+					as = append(as, t.expr(key))
+				}
+				if call, ok := x.Rhs[0].(*ast.CallExpr); ok && isBuiltinMake(t, call) {
+					name += "_make" // a new empty map / list of a type that is not translated: nothing to hand over
+				} else {
+					vt := t.coqType(x.Rhs[0], t.info.TypeOf(x.Rhs[0]))
+					tys = append(tys, vt)
+					as = append(as, t.expr(x.Rhs[0]))
+					name += "_" + strings.Trim(strings.NewReplacer("(", "", ")", "", " ", "_", "*", "x").Replace(vt), "_") // (one unknown function per type of value stored)
+				}
+				fn := t.observe(name, "("+strings.Join(append(tys, "go_val"), " -> ")+")")
+				return "let " + local + " := (" + fn + " " + strings.Join(as, " ") + ") in" + nl + t.block(rest, c, ind)
+			}
+		}
 		// h := pkg.F(...) for an opaque value: h is a fresh value of its own (methods called on it for effect rebind it)
 		if len(x.Lhs) == 1 && len(x.Rhs) == 1 && x.Tok == token.DEFINE {
 			if call, ok := x.Rhs[0].(*ast.CallExpr); ok {
@@ -2338,6 +2386,46 @@ func (t *tr) pkgChain(e ast.Expr) (string, bool) {
 		return name, true
 	}
 	return "", false
+}
+
+// freshStore: e is a field path (optionally indexed) of a fresh opaque local: the local, the path, the index
+func (t *tr) freshStore(e ast.Expr) (types.Object, string, ast.Expr, bool) {
+	var key ast.Expr
+	if ie, ok := e.(*ast.IndexExpr); ok {
+		key = ie.Index
+		e = ie.X
+	}
+	var names []string
+	for {
+		switch y := e.(type) {
+		case *ast.ParenExpr:
+			e = y.X
+			continue
+		case *ast.SelectorExpr:
+			names = append([]string{y.Sel.Name}, names...)
+			e = y.X
+			continue
+		}
+		break
+	}
+	id, ok := e.(*ast.Ident)
+	if !ok || len(names) == 0 {
+		return nil, "", nil, false
+	}
+	o := t.info.Uses[id]
+	if o == nil || !t.freshLocal[o] || t.names[o] == "" {
+		return nil, "", nil, false
+	}
+	return o, strings.Join(names, "_"), key, true
+}
+
+func isBuiltinMake(t *tr, c *ast.CallExpr) bool {
+	id, ok := c.Fun.(*ast.Ident)
+	if !ok {
+		return false
+	}
+	b, ok := t.info.Uses[id].(*types.Builtin)
+	return ok && b.Name() == "make"
 }
 
 // unconv: e without conversions between pointer types whose pointees are translated alike ((*TagList)(c) for a
